@@ -169,12 +169,29 @@ struct World {
     lazy_guard: Option<SlotGuard<Child2>>,
     force: Option<ForceFlushGuard>,
     problems: Vec<String>,
+    /// environment of this replay: every drop happens by the unwinding of a caught panic
+    unwinding: bool,
 }
 
+/// Drops `x` plainly or by the unwinding of a caught panic of its owner.
+fn drop_it<T>(x: T, unwinding: bool) {
+    if unwinding {
+        let r = std::panic::catch_unwind(std::panic::AssertUnwindSafe(move || {
+            let _owned = x;
+            std::panic::panic_any(ExpectedUnwind);
+        }));
+        assert!(r.is_err());
+    } else {
+        drop(x);
+    }
+}
+struct ExpectedUnwind;
+
 impl World {
-    fn new() -> World {
+    fn new(unwinding: bool) -> World {
         let sink = VecEntrySink::new();
         World {
+            unwinding,
             parent: Some(Work::default().append_on_drop(sink.clone())),
             sink,
             slot_guard: None,
@@ -214,13 +231,13 @@ impl World {
             }
             Op::MutSlot => self.slot_guard.as_mut().unwrap().n += 1,
             Op::MutLazy => self.lazy_guard.as_mut().unwrap().m += 1,
-            Op::DropSlotGuard => drop(self.slot_guard.take()),
-            Op::DropLazyGuard => drop(self.lazy_guard.take()),
+            Op::DropSlotGuard => drop_it(self.slot_guard.take(), self.unwinding),
+            Op::DropLazyGuard => drop_it(self.lazy_guard.take(), self.unwinding),
             Op::MutParent => self.parent.as_mut().unwrap().a += 1,
-            Op::DropParent => drop(self.parent.take()),
+            Op::DropParent => drop_it(self.parent.take(), self.unwinding),
             Op::EmitParent => metrique::instrument::Instrumented::from_parts((), self.parent.take().unwrap()).emit(),
             Op::MkForce => self.force = Some(self.parent.as_ref().unwrap().force_flush_guard()),
-            Op::DropForce => drop(self.force.take()),
+            Op::DropForce => drop_it(self.force.take(), self.unwinding),
             Op::WaitForData => {
                 let p = self.parent.as_mut().unwrap();
                 let got = futures::executor::block_on(p.child.wait_for_data()).is_some();
@@ -246,16 +263,21 @@ thread_local! {
 }
 
 fn check_history(st: &mut St, hist: &[Op], model: &Model) {
-    check_history_in(st, hist, model, false);
+    check_history_in(st, hist, model, false, false);
+    // environment deviation: every drop by the unwinding of a caught panic (shorter histories
+    // only: unwinding costs microseconds per drop)
+    if hist.len() <= 6 {
+        check_history_in(st, hist, model, false, true);
+    }
     // environment deviation: the same history inside a tokio task whose cooperative budget is
     // used up (every budgeted poll then answers Pending); waiting for data would spin there
     if !hist.contains(&Op::WaitForData) {
-        check_history_in(st, hist, model, true);
+        check_history_in(st, hist, model, true, false);
     }
 }
 
-fn check_history_in(st: &mut St, hist: &[Op], model: &Model, budget_exhausted: bool) {
-    let mut w = World::new();
+fn check_history_in(st: &mut St, hist: &[Op], model: &Model, budget_exhausted: bool, unwinding: bool) {
+    let mut w = World::new(unwinding);
     let mut seen: Vec<(u64, Option<u64>, Option<u64>)> = Vec::new();
     let mut run = |w: &mut World, st: &mut St| {
         for o in hist {
@@ -280,9 +302,9 @@ fn check_history_in(st: &mut St, hist: &[Op], model: &Model, budget_exhausted: b
     } else {
         run(&mut w, st);
     }
-    let env = if budget_exhausted { ":tokio-budget-exhausted" } else { "" };
+    let env = if budget_exhausted { ":tokio-budget-exhausted" } else if unwinding { ":drops-by-unwinding" } else { "" };
     let expect: Vec<_> = model.appended.into_iter().collect();
-    let replay = || json!({"history": hist.iter().map(|o| format!("{o:?}")).collect::<Vec<_>>(), "received (a,n,m)": format!("{seen:?}"), "expected": format!("{expect:?}"), "environment": if budget_exhausted { "inside a tokio task with its cooperative budget used up" } else { "plain thread" }});
+    let replay = || json!({"history": hist.iter().map(|o| format!("{o:?}")).collect::<Vec<_>>(), "received (a,n,m)": format!("{seen:?}"), "expected": format!("{expect:?}"), "environment": if budget_exhausted { "inside a tokio task with its cooperative budget used up" } else if unwinding { "every drop by the unwinding of a caught panic" } else { "plain thread" }});
     for p in &w.problems {
         st.v.add(format!("seq:{p}{env}"), format!("after {hist:?}: {p}"), replay());
     }
@@ -319,6 +341,12 @@ fn explore(st: &mut St, hist: &mut Vec<Op>, model: &Model, depth: usize) {
 
 fn main() {
     let mut rep = Report::from_args("C13", "model_checking");
+    let default_hook = std::panic::take_hook();
+    std::panic::set_hook(Box::new(move |info| {
+        if !info.payload().is::<ExpectedUnwind>() {
+            default_hook(info);
+        }
+    }));
     let depth: usize = rep.tier.pick(8, 10);
     let init = Model { parent_alive: true, a: 0, slot: SlotM::Unopened, lazy: SlotM::Unopened, force_alive: false, force_dropped: false, appended: None };
     let mut prefixes: Vec<(Vec<Op>, Model)> = Vec::new();
